@@ -1010,7 +1010,7 @@ fn build_tapes(infos: &[ClientInfo], property: &str, tier: &str, seed: u64) -> (
     }
     n_enum += n_pairs;
     // seeded: 1..3 rounds of 1..3 concurrent calls, interleavings, chunkings, latencies, all truncation offsets
-    let n_seeded = if thorough { 6_000_000 } else { 40_000 };
+    let n_seeded = if thorough { 2_500_000 } else { 40_000 };
     for r in 0..n_seeded {
         let mut ch = Chooser::explore(Rng::derive(seed, if property == "C16" { "net-seeded" } else { "net-seeded-c07" }, r));
         let _ = decode_scenario(&mut ch, infos);
